@@ -1,3 +1,4 @@
+import BobEM.Model.Basic
 -- generic EM loop of gmm.py / kmeans.py `fit` (import-free)
 namespace BobEM
 /-- `stop prev cur` is the test `thr is not None and abs((prev-cur)/prev) <= thr`.
@@ -15,4 +16,17 @@ def emLoop {S α : Type} (stepf : S → S × α) (stop : α → α → Bool) :
 def traj {S α : Type} (stepf : S → S × α) (s0 : S) (c0 : α) : Nat → S × α
   | 0 => (s0, c0)
   | k+1 => stepf (traj stepf s0 c0 k).1
+
+section
+variable {α : Type} [Sub α] [Div α] [Neg α] [OfNat α 0] [LT α] [DecidableLT α] [LE α] [DecidableLE α]
+/-- `abs` -/
+def absv (a : α) : α := if a < 0 then -a else a
+/-- `abs((prev - cur) / prev)` -/
+def relChange (prev cur : α) : α := absv ((prev - cur) / prev)
+/-- `convergence_threshold is not None and convergence_value <= convergence_threshold` -/
+def convStop (thr : Option α) (prev cur : α) : Bool :=
+  match thr with
+  | none => false
+  | some t => decide (relChange prev cur ≤ t)
+end
 end BobEM
